@@ -294,7 +294,7 @@ func TestC04Readers(t *testing.T) {
 					for w, sw := range writers {
 						ackBefore[w] = sw.acked.Load()
 					}
-					if i%4 == 1 {
+					if i%16 == 1 {
 						// a search sorted on n through the current root (fills scorch's per-segment
 						// doc-value caches when the mapping keeps no doc values)
 						sreq := bleve.NewSearchRequestOptions(bleve.NewMatchAllQuery(), 5, 0, false)
@@ -444,7 +444,15 @@ func TestC04Readers(t *testing.T) {
 				t.Fatalf("%s: the view of reader %d (taken after ack %d of writer 0) changed while it was held:\n at acquisition %s\n after writes    %s", desc, i, f.atAck, f.digest, again)
 			}
 			// only now does this reader read doc values: by this time newer snapshots have
-			// sorted on n (the clients do), so any per-segment cache is already filled
+			// sorted on n (the clients now and then, and the search below through the final
+			// root), so any per-segment cache is already filled
+			if i == 0 {
+				sreq := bleve.NewSearchRequestOptions(bleve.NewMatchAllQuery(), 5, 0, false)
+				sreq.SortBy([]string{"-n", "_id"})
+				if _, err := idx.Search(sreq); err != nil {
+					t.Fatalf("%s: sorted search: %v", desc, err)
+				}
+			}
 			if problem := readerDocValuesProblem(f.r); problem != "" {
 				t.Fatalf("%s: reader %d (taken after ack %d of writer 0), read after all writes: %s", desc, i, f.atAck, problem)
 			}
